@@ -72,6 +72,10 @@ pub fn init() {
                 .map(|l| {
                     let f = l.file();
                     let short = f.strip_prefix("/repo/").unwrap_or(f);
+                    let short = match short.find("/library/") {
+                        Some(i) => &short[i + 1..],
+                        None => short,
+                    };
                     format!("{}:{}", short, l.line())
                 })
                 .unwrap_or_else(|| "?".to_string());
